@@ -161,8 +161,41 @@ fn make_simple_summary_txs(
         };
         (vec![summary_tx], Vec::new())
     } else {
-        (Vec::new(), vec![SHARE_BALANCE_ZERO_WARNING.to_string()])
+        (
+            make_shareless_acb_summary_txs(af, tx, sum_post_status),
+            vec![SHARE_BALANCE_ZERO_WARNING.to_string()],
+        )
     }
+}
+
+/// An affiliate can have an ACB without holding any shares (a superficial loss
+/// adjustment is dated at the sale, which can precede the purchase it is due to).
+/// That ACB cannot be expressed as a summary Buy, so it is carried over as an
+/// explicit adjustment instead of being dropped.
+fn make_shareless_acb_summary_txs(
+    af: &Affiliate,
+    tx: &Tx,
+    sum_post_status: &super::PortfolioSecurityStatus,
+) -> Vec<Tx> {
+    let acb = match sum_post_status.total_acb {
+        Some(total_acb) => match PosDecimal::try_from(*total_acb) {
+            Ok(acb) => acb,
+            Err(_) => return Vec::new(),
+        },
+        None => return Vec::new(),
+    };
+    vec![Tx {
+        security: tx.security.clone(),
+        trade_date: tx.settlement_date,
+        settlement_date: tx.settlement_date,
+        action_specifics: super::TxActionSpecifics::Sfla(super::SflaTxSpecifics {
+            shares_affected: PosDecimal::one(),
+            amount_per_share: acb,
+        }),
+        memo: "Summary (ACB without shares)".to_string(),
+        affiliate: af.clone(),
+        read_index: 0,
+    }]
 }
 
 fn make_annual_gains_summary_txs(
@@ -295,6 +328,14 @@ fn make_annual_gains_summary_txs(
         };
 
         summary_period_txs.push(summary_tx);
+    }
+
+    if sum_post_status.share_balance.is_zero() {
+        summary_period_txs.extend(make_shareless_acb_summary_txs(
+            af,
+            &deltas[latest_summarizable_delta_idx].tx,
+            sum_post_status,
+        ));
     }
 
     (summary_period_txs, warnings)
